@@ -533,6 +533,15 @@ def drillhole_program_strategy(max_adds=6):
         table = draw(survey_strategy())
         scale = draw(st.sampled_from([0.25, 1.0, 2.5]))
         ops = []
+        coord = st.one_of(st.integers(-2000, 2000).map(lambda v: v / 2.0),
+                          st.floats(-1e4, 1e4, allow_nan=False).map(lambda v: round(v, 3)))
+        # the station cache must follow the collar / surveys setters (before any data exist)
+        for _ in range(draw(st.sampled_from([0, 0, 0, 1, 2]))):
+            if draw(st.booleans()):
+                ops.append({"op": "set_collar", "value": draw(st.lists(coord, min_size=3, max_size=3))})
+            else:
+                ops.append({"op": "set_surveys", "table": draw(survey_strategy())})
+            ops.append({"op": "query"})
         if draw(st.booleans()):
             ops.append({"op": "query"})
         n_adds = draw(st.integers(1, max_adds))
@@ -553,8 +562,6 @@ def drillhole_program_strategy(max_adds=6):
         if draw(st.integers(0, 2)) == 0:
             ops.append({"op": "reopen"})
         queries = draw(st.lists(st.floats(0.0, 400.0, allow_nan=False).map(lambda v: round(v, 4)), max_size=4))
-        coord = st.one_of(st.integers(-2000, 2000).map(lambda v: v / 2.0),
-                          st.floats(-1e4, 1e4, allow_nan=False).map(lambda v: round(v, 3)))
         return {
             "collar": draw(st.lists(coord, min_size=3, max_size=3)),
             "surveys": table,
